@@ -66,9 +66,11 @@ def check(tier: str) -> Result:
             args.append(p)
         kw = {a.arg: mk("param", init.qual, a.arg) for a in init.node.args.kwonlyargs}
         params.update(kw)
-        n_ev = len(vfg.events)
-        vfg.apply_func(init, self_t, init.cls, args, kw, None, None)
-        stores = [e for e in vfg.events[n_ev:] if e.kind == "store_attr" and e.target is self_t and e.name == "time_limit"]
+        from ..engine import VFG
+        from ..model import Model
+        v_init = VFG(tree, Model(tree))
+        v_init.apply_func(init, self_t, init.cls, args, kw, None, None)
+        stores = [e for e in v_init.events if e.kind == "store_attr" and e.target is self_t and e.name == "time_limit"]
         if not stores:
             raise AnalysisError(f"{env}.__init__: no assignment to self.time_limit found")
         P = params["time_limit"]
